@@ -154,7 +154,11 @@ func faultList() []fault {
 				out = append(out, fault{fmt.Sprintf("%s %s=%s", p, name, tv), rawReq("POST", p, bodyOf(m)), wrong})
 			}
 			if kind == 'n' {
-				for _, nv := range []string{"-1", "1e30", "9223372036854775807", "9223372036854775808", "18446744073709551615", "18446744073709551616", "1.5", "-0", "1e400", "4294967296", "0"} {
+				for _, nv := range []string{"-1", "1e30", "9223372036854775807", "9223372036854775808", "18446744073709551615", "18446744073709551616", "1.5", "-0", "1e400", "4294967296", "0",
+					// legal JSON numbers whose TEXT is extreme although their value is not: zero mantissa with a huge exponent,
+					// huge negative exponents, long fractions, long runs of zeros (hand-written number parsing loops over these)
+					"0e18446744073709551615", "0E+999999999999", "0.0e99999999", "-0e9223372036854775807", "1e-99999999999", "5e-324", "0e-18446744073709551615",
+					"0." + strings.Repeat("0", 70000) + "1", "1" + strings.Repeat("0", 70000), strings.Repeat("1", 400) + "e-399", "1e0000000000000000000000000000000000000001", "3e00"} {
 					m := validBody(p)
 					m[name] = nv
 					out = append(out, fault{fmt.Sprintf("%s %s=%s", p, name, nv), rawReq("POST", p, bodyOf(m)), false})
